@@ -20,26 +20,26 @@ from vlib import build
 import numpy as np, tempfile, os, shutil, sys, glob, warnings, h5py
 warnings.simplefilter('ignore')
 drf = build.load_pkg()
-cls, size, sign, order, cplx = %r
-kind = 'f' if cls == 1 else ('i' if sign == 1 else 'u')
-dt = ('>' if order == 1 else '<') + kind + str(size)
-top = tempfile.mkdtemp(); os.makedirs(top + '/ch')
 bad = 0
-try:
-    w = drf.DigitalRFWriter(top + '/ch', dt, 3600, 1000, 10**10, 10, 1, 'u', is_complex=bool(cplx), is_continuous=True, marching_periods=False)
-    arr = np.ones((3, 2) if cplx else (3,), dtype=dt)
-    w.rf_write(arr, next_sample=2); w.close()
-    f = glob.glob(top + '/ch/*/*.h5')[0]
-    with h5py.File(f, 'r') as h: d = h['rf_data'][...]
-    gap = d[0, 0]
-    comps = [gap['r'], gap['i']] if cplx else [gap]
-    for c in comps:
-        if kind == 'f': ok = bool(np.isnan(c))
-        elif kind == 'i': ok = int(c) == -(1 << (8 * size - 1))
-        else: ok = int(c) == 0
-        print(dt, 'complex' if cplx else 'real', 'unwritten slot reads', c, 'OK' if ok else 'WRONG'); bad |= (not ok)
-finally:
-    shutil.rmtree(top)
+for (cls, size, sign, order, cplx) in %r:
+    kind = 'f' if cls == 1 else ('i' if sign == 1 else 'u')
+    dt = ('>' if order == 1 else '<') + kind + str(size)
+    top = tempfile.mkdtemp(); os.makedirs(top + '/ch')
+    try:
+        w = drf.DigitalRFWriter(top + '/ch', dt, 3600, 1000, 10**10, 10, 1, 'u', is_complex=bool(cplx), is_continuous=True, marching_periods=False)
+        arr = np.ones((3, 2) if cplx else (3,), dtype=dt)
+        w.rf_write(arr, next_sample=2); w.close()
+        f = glob.glob(top + '/ch/*/*.h5')[0]
+        with h5py.File(f, 'r') as h: d = h['rf_data'][...]
+        gap = d[0, 0]
+        comps = [gap['r'], gap['i']] if cplx else [gap]
+        for c in comps:
+            if kind == 'f': ok = bool(np.isnan(c))
+            elif kind == 'i': ok = int(c) == -(1 << (8 * size - 1))
+            else: ok = int(c) == 0
+            print(dt, 'complex' if cplx else 'real', 'unwritten slot reads', c, 'OK' if ok else 'WRONG'); bad |= (not ok)
+    finally:
+        shutil.rmtree(top)
 sys.exit(1 if bad else 0)
 '''
 
@@ -114,13 +114,16 @@ def fill_values(rep, st):
             c = cells.get(base)
             if c is None and not base: c = cells.get(())
             comps.append(c)
-        ok = (ty == want_ty) and plist == 7002
+        # the type argument describes the VALUE BUFFER; HDF5 converts from it to the dataset type.  Either it is the dataset's own type (the buffer
+        # is then read in the declared byte order), or a native type of the same class and size (the buffer is then read in host order)
+        native = (not isinstance(ty, int)) and 'H5T_NATIVE_' in str(ty)
+        ok = ((ty == want_ty) if isinstance(ty, int) else (native and not cplx)) and plist == 7002
         desc = []
         for c in comps:
             # an unsigned fill may be handed over as a wider zero (int64_t minUnsignedInt): only its first `size` bytes are read
             bits = const_bits(c, size if not (isinstance(c, int)) else size)
             if bits is None: ok = False; desc.append('?'); continue
-            declared = bits if val['order'] == ORDER_LE else bswap(bits, size)
+            declared = bits if (val['order'] == ORDER_LE or native) else bswap(bits, size)
             if val['cls'] == H5T_FLOAT:
                 ebits, mbits = (8, 23) if size == 4 else (11, 52)
                 exp = (declared >> mbits) & ((1 << ebits) - 1); man = declared & ((1 << mbits) - 1)
@@ -144,9 +147,10 @@ def fill_values(rep, st):
     if wrong:
         w = wrong[0]
         cell = (w['cls'], w['size'], w['sign'], w['order'], w['cplx'])
+        cells_ = [(x['cls'], x['size'], x['sign'], x['order'], x['cplx']) for x in wrong if x.get('supported')][:16] or [cell]
         rep.violation(title, 'C07.fill.%s' % ('float_order%d' % w['order'] if w['cls'] == H5T_FLOAT else 'int_order%d_size%d_cplx%d' % (w['order'], w['size'], w['cplx'])),
                       'cell (class=%d, size=%d, sign=%d, order=%d, complex=%d): fill bytes read as %s' % (cell + (w.get('declared_value'),)),
-                      replay_body=REPLAY % (cell,), queries=ex.nq, solver_s=ex.tq, paths=n, sample={'cell': w})
+                      replay_body=REPLAY % (cells_,), queries=ex.nq, solver_s=ex.tq, paths=n, sample={'cell': w})
     else:
         rep.ob(title, 'discharged', 'H5Tget_class 0..11, size 0..17, sign 0..2, order 0..3, complex 0..1 (all symbolic); little-endian host', ex.nq, ex.tq, n,
                sample={'accepted_cells': len(accepted), 'example': accepted[:2]})
@@ -216,4 +220,6 @@ def main(tier):
         rep.replays += n
         rep.ob('%d continuous-mode witnesses run on the real build: unwritten slots of existing files read as the int16 fill value, written ones as written' % n,
                'witness' if n else 'inconclusive', None, 0, 0, n)
+    from checks import extglue
+    extglue.run_dtype(rep, st, tier)       # the element type (class, size, sign, byte order) handed to the library is the caller's
     return rep.finish()
